@@ -181,19 +181,29 @@ func nilnessAt(v ssa.Value, at *ssa.BasicBlock, depth int) nilness {
 		return nonNil
 	case *ssa.ChangeInterface:
 		return nilnessAt(x.X, at, depth+1)
+	case *ssa.Call:
+		switch StaticCalleeName(&x.Call) {
+		case "fmt.Errorf", "errors.New", "google.golang.org/grpc/status.Error", "google.golang.org/grpc/status.Errorf":
+			return nonNil
+		}
 	case *ssa.Phi:
 		var all nilness
+		mixed := false
 		for i, e := range x.Edges {
 			if e == ssa.Value(x) {
 				continue
 			}
 			n := nilnessAt(e, x.Block().Preds[i], depth+1)
 			if n == nilUnknown || (all != nilUnknown && all != n) {
-				return nilUnknown
+				mixed = true
+				break
 			}
 			all = n
 		}
-		return all
+		if !mixed && all != nilUnknown {
+			return all
+		}
+		// otherwise: a dominating test of the phi itself (below)
 	}
 	refs := v.Referrers()
 	if refs == nil {
@@ -233,6 +243,9 @@ func nilnessAt(v ssa.Value, at *ssa.BasicBlock, depth int) nilness {
 	}
 	return nilUnknown
 }
+
+// KnownNonNil reports whether v is certainly non-nil while control is in block at.
+func KnownNonNil(v ssa.Value, at *ssa.BasicBlock) bool { return nilnessAt(v, at, 0) == nonNil }
 
 // feasibleBranches prunes the successors of a block that ends in an If whose
 // outcome is fixed on the way it was entered.
